@@ -1,6 +1,7 @@
 let show_on f = function Some x -> f x | None -> "-"
 let () =
   iter_lines (fun line ->
+    let line = if String.length line > 0 && line.[0] = 'T' then String.sub line 1 (String.length line - 1) else line in
     let chunks = List.map (fun c -> List.map n_of_int (ints_of c)) (String.split_on_char ';' line) in
     match run_case chunks with
     | Panic | OutOfFuel -> "FEEDPANIC"
